@@ -83,6 +83,30 @@ func runViewPort(tw *trace.Writer, pw, ph int, ops []vpOp, maxc int) {
 	for _, o := range ops {
 		g := geom(vp)
 		before := [2]int{g["vx"], g["vy"]}
+		if !guarded(tw, "viewport", o.Op, func() { vpApply(vp, o) }) {
+			return
+		}
+		if o.Op == "SetContentSize" {
+			locked = o.Locked
+		}
+		emit("VpOp", o, before, locked)
+	}
+}
+
+// guarded runs one call of the code under test; a panic is logged as an event (the history ends there).
+func guarded(tw *trace.Writer, area, op string, f func()) (ok bool) {
+	defer func() {
+		if r := recover(); r != nil {
+			tw.Emit(trace.Ev{"ev": "Panic", "area": area, "op": op, "msg": trace.Str(fmt.Sprint(r))})
+			ok = false
+		}
+	}()
+	f()
+	return true
+}
+
+func vpApply(vp *views.ViewPort, o vpOp) {
+	{
 		switch o.Op {
 		case "ScrollUp":
 			vp.ScrollUp(o.N)
@@ -102,11 +126,9 @@ func runViewPort(tw *trace.Writer, pw, ph int, ops []vpOp, maxc int) {
 			vp.SetSize(o.W, o.H)
 		case "SetContentSize":
 			vp.SetContentSize(o.W, o.H, o.Locked)
-			locked = o.Locked
 		case "Resize":
 			vp.Resize(o.X, o.Y, o.W, o.H)
 		}
-		emit("VpOp", o, before, locked)
 	}
 }
 
@@ -207,6 +229,14 @@ func runLayout(tw *trace.Writer, rng *rand.Rand, nops int) {
 	r.box = views.NewBoxLayout(o)
 	r.box.SetView(r.rv)
 	for i := 0; i < nops; i++ {
+		if !guarded(tw, "layout", "step", func() { r.step(rng) }) {
+			return
+		}
+	}
+}
+
+func (r *layoutRun) step(rng *rand.Rand) {
+	{
 		switch k := rng.Intn(10); {
 		case k < 4 && len(r.kids) < 8:
 			w := &stubWidget{pw: rng.Intn(9), ph: rng.Intn(6), id: r.nextq}
